@@ -109,22 +109,45 @@ def main(tier, replay):
         "real ProjDataInfoCylindricalNoArcCorr/ArcCorr, ProjDataInfoBlocksOnCylindricalNoArcCorr, ProjDataInfoGenericNoArcCorr, LORCoordinates, "
         "DetectorCoordinateMap, ProjDataInfo TOF table, overlap_interpolate, ArcCorrection on ALL predefined scanners (enumerated through "
         "Scanner::Type; non-arc-corrected and arc-corrected; seeded span / view mashing / TOF mashing) + generated cylindrical scanners "
-        "(random radius, spacing, tilt, spans odd/even, mashing, TOF) + generated blocks-on-cylindrical and generic (crystal-map file) scanners + "
-        "constructor-rejected configurations.  Oracle (C++, double): for every selected bin (all bins of small geometries; ends, neighbours of "
-        "ends, 0 and a seeded sample per index for large ones) the property's clauses: get_LOR->get_bin round trip, line through the physical "
-        "detector positions of every contributing detector pair vs get_s/get_phi/get_m/get_tantheta, antisymmetry/monotonicity, uniform "
-        "sampling, TOF table, arc correction of uniform/random rows.  Operation lines (a seeded subset of those bins + TOF table + crystal "
-        "positions + overlap_interpolate/ArcCorrection rows) are answered by the Lean model and compared: integers and bins exactly (`rt`: "
-        "membership in the model's set of admissible nearest-detector roundings), floats with |impl-model| <= C*2^-24*magnitude, the model "
-        "supplying the magnitude (sum of |terms| x conditioning of sqrt(R^2-s^2)); C = " + repr(C_KIND) + ". distinct = distinct operation lines.")
+        "(random radius, spacing, tilt, spans odd/even, mashing, TOF) + generated blocks-on-cylindrical and generic (crystal-map file) scanners, "
+        "also with TOF (set_tof_mash_factor) and span 3 + constructor-rejected configurations.  Oracle (C++, double): for every selected bin (all "
+        "bins of small geometries; ends, neighbours of ends, 0 and a seeded sample per index for large ones) the property's clauses: "
+        "get_LOR->get_bin round trip -- for a third of the bins also with the SAME LINE handed to get_bin as LORInCylinderCoordinates, "
+        "LORInAxialAndSinogramCoordinates, LORAs2Points on the cylinder, LORAs2Points moved along the line (-2/8..8/8 of the chord at either end) and "
+        "the four reversed forms (TOF bin must change sign); without rounding ties the answers must be identical --, line through the physical "
+        "detector positions of every contributing detector pair vs get_s/get_phi/get_m/get_tantheta (every TOF bin), every (detector pair, "
+        "unmashed timing position) of a TOF bin maps back to the bin, opposite TOF bins have exchanged detection coordinates, detector pairs -> "
+        "Cartesian coordinates (also moved outwards) -> find_scanner_coordinates_given_cartesian_coordinates / "
+        "find_bin_given_cartesian_coordinates_of_detection give the detectors / the bin back (cylindrical and blocks), arc-corrected bins have the "
+        "angles / axial position / obliqueness of the detector-based geometry of the same scanner, antisymmetry/monotonicity, uniform sampling, TOF "
+        "table (cylindrical, blocks, generic), arc correction of uniform/random rows; the six ArcCorrection overloads (Sinogram, Viewgram, "
+        "RelatedViewgrams with Cartesian-grid symmetries, SegmentBySinogram, SegmentByView, ProjData; value-returning and in-place forms) on "
+        "multi-ring, view-mashed, span-3 and TOF data must equal the sinogram-by-sinogram result bit for bit; LOR representation changes "
+        "(constructors, change_representation, get_intersections_with_cylinder between all four LOR types, also from stretched points) must keep "
+        "the directed line.  Operation lines (a seeded subset of those bins + TOF table + crystal positions + overlap_interpolate/ArcCorrection "
+        "rows + LOR conversions on a grid of pi/64) are answered by the Lean model and compared: integers and bins exactly (`rt`/`rtx`/`fbin`: "
+        "membership in the model's set of admissible nearest-detector roundings; `rtx` = the other LOR representations, modelled through explicit "
+        "cylinder/sinogram conversions), floats with |impl-model| <= C*2^-24*magnitude, the model supplying the magnitude (sum of |terms| x "
+        "conditioning of sqrt(R^2-s^2)); C = " + repr(C_KIND) + ". distinct = distinct operation lines.")
     chk.assumptions += ["32-bit overflow not modelled", "binary32 rounding inside STIR is bounded, not modelled: trigonometric coordinates are recomputed in binary64 by the model",
                         "bins of arc-corrected data with |s| >= 0.995 R (outside the detector ring) are skipped",
                         "detector pairs on the same flat bucket of a blocks scanner (degenerate lines along the bucket face) are skipped",
                         "segments clipped to a single ring difference with the axial size of a compressed segment (C01 known finding) are skipped",
-                        "the Lean model describes the code with the fixes build/fixes/C12-1..5 (coincident nearest detectors -> miss; max_delta >= span/2; "
-                        "TOF in arc-corrected get_bin; generic get_tantheta over the chord length; last arc-corrected box one bin wide)",
+                        "the Lean model describes the code with the fixes build/fixes/C12-1..8 (coincident nearest detectors -> miss; max_delta >= span/2; "
+                        "TOF in arc-corrected get_bin; generic get_tantheta over the chord length; last arc-corrected box one bin wide; get_sino_coords "
+                        "direction flags; arc-corrected get_bin view 2*num_views -> 0; ArcCorrection keeps the TOF mashing factor); for C12-6/C12-7 the harness "
+                        "probes through the real API whether the code under test contains the fix (line `lorfix`) and the model follows it, the oracle "
+                        "reporting the unrepaired behaviour as KNOWN-CANDIDATE lor:cylinder-to-sinogram-direction / arccorr:get_bin-returns-view-equal-to-num_views",
+                        "LOR objects whose radius differs from the ring radius are not used (set_radius is documented as a radial scaling that does not "
+                        "preserve the line); LORAs2Points off the ring radius are",
+                        "blocks/generic: get_bin accepts LORAs2Points only (other LOR types: std::bad_cast) and only exact crystal positions; TOF and axially "
+                        "compressed blocks/generic data are run, their failures are the known findings generic:get_bin-no-tof and "
+                        "generic:no-coordinates-for-axially-compressed-bins",
+                        "TOF blocks scanners: Scanner::set_up runs check_consistency (which reads max_FOV_radius) before initialise_max_FOV_radius(); the "
+                        "harness first builds and drops the non-TOF twin so that the reused storage holds the right value (observation outside C12)",
                         "crystal-map look-up of ProjDataInfoGenericNoArcCorr::get_bin, overlap_interpolate/ArcCorrection on rows and all floating-point "
-                        "coordinates are not theorems: correspondence (rows: exact rational model + forward error bound) and oracle only",
+                        "coordinates are not theorems: correspondence (rows: exact rational model + forward error bound) and oracle only; the ArcCorrection "
+                        "overloads other than Sinogram are compared with the Sinogram overload (oracle), not modelled separately",
                         "round trip theorems are about exact angles with an arbitrary choice at rounding ties; the correspondence accepts any result in the model's candidate set"]
     if audit:
         vlib.proof_coverage(chk, audit, "cd lean && lake build StirVerif stirdriver && lake env lean ../build/out/Audit_C12.lean")
